@@ -203,6 +203,11 @@ func cmdCheck(args []string) int {
 				return true
 			}
 		}
+		for _, g := range fc.Ghosts {
+			if g.Clause != nil && contains(g.Clause.Props, *prop) {
+				return true
+			}
+		}
 		return false
 	}
 	var fcs []*FuncContract
